@@ -370,6 +370,14 @@ class World(object):
                 return ctx
         circus.arbiter.zmq = ModProxy(zmq, Context=_Ctx)
         circus.arbiter.socket = ModProxy(socket, getfqdn=lambda: 'sim.host')
+
+        def _no_multicast(addr, port):
+            # (daemons built from a configuration file have a multicast
+            # discovery endpoint by default: a real UDP socket on a fixed
+            # port. The simulated host has no multicast route - the daemon
+            # logs that discovery is disabled and goes on)
+            raise OSError(101, 'Network is unreachable (simulated)')
+        circus.controller.create_udp_socket = _no_multicast
         circus.arbiter._setproctitle = lambda title: None
         circus.client.zmq = ModProxy(zmq, Poller=zmqsim.SimPoller,
                                      Context=_Ctx)
